@@ -1,6 +1,7 @@
 package main
 
 import (
+	"go/token"
 	"go/constant"
 	"sort"
 	"strings"
@@ -295,22 +296,68 @@ func init() {
 			}
 		}
 		o.Require(active != nil, "verdict", "Mutes has no verdict derived from the active silence ids", nil)
-		noActive := L("(len("+e.X(fn, active)+") == 0)", true)
+		// (the two id lists render alike; they are told apart by value: a list is "the active ids" iff every
+		// element is added under state == active)
+		activeOnly := func(v ssa.Value) bool {
+			_, parts := e.AppendParts(v)
+			if len(parts) == 0 {
+				return false
+			}
+			for _, p := range parts {
+				if !e.OnlyUnder(p.Call, isState0("active")) {
+					return false
+				}
+			}
+			return true
+		}
+		// lenOfActive: the condition compares len(<active ids>) with 0
+		lenOfActive := func(cond ssa.Value) bool {
+			for {
+				if u, ok := cond.(*ssa.UnOp); ok && u.Op == token.NOT {
+					cond = u.X
+					continue
+				}
+				break
+			}
+			b, ok := cond.(*ssa.BinOp)
+			if !ok {
+				return false
+			}
+			for _, side := range []ssa.Value{b.X, b.Y} {
+				if isLenCall(side) && activeOnly(side.(*ssa.Call).Call.Args[0]) {
+					return true
+				}
+			}
+			return false
+		}
+		noActiveAtom := "(len(" + e.X(fn, active) + ") == 0)"
+		cutOn := func(pos bool) func(*ssa.BasicBlock, int) bool {
+			return func(b *ssa.BasicBlock, si int) bool {
+				l, ok := e.EdgeLit(b, si)
+				if !ok || l.Atom != noActiveAtom || l.Pos != pos {
+					return false
+				}
+				return lenOfActive(b.Instrs[len(b.Instrs)-1].(*ssa.If).Cond)
+			}
+		}
+		onlyUnderActive := func(target ssa.Instruction, pos bool) bool {
+			return !(&Walk{Fn: fn, Cut: cutOn(pos)}).FromEntry().Has(target)
+		}
 		for _, rs := range e.ResultStores(fn, 0) {
 			if k, ok := rs.Val.(*ssa.Const); ok && k.Value != nil && k.Value.Kind() == constant.Bool {
 				if constant.BoolVal(k.Value) {
 					o.Site(rs.Instr, "returns true")
-					o.Guarded(rs.Instr, "const-true", "answering 'muted'", noActive.Neg())
+					o.Check(onlyUnderActive(rs.Instr, false), "const-true", "Mutes answers 'muted' on a path that has not established that an active silence id was found", rs.Instr)
 					continue
 				}
 				o.Site(rs.Instr, "returns false")
-				ok1 := e.OnlyUnder(rs.Instr, noActive) || e.OnlyUnder(rs.Instr, VE, total0) && e.OnlyUnder(rs.Instr, cnt0, total0)
+				ok1 := onlyUnderActive(rs.Instr, true) || e.OnlyUnder(rs.Instr, VE, total0) && e.OnlyUnder(rs.Instr, cnt0, total0)
 				o.Check(ok1, "false-guard", "Mutes answers 'not muted' without evaluation although the cache may be stale: this exit needs (version unchanged ∧ nothing cached), (no active/pending silence found) or (no active silence id)", rs.Instr)
 				continue
 			}
 			vl := e.CondLit(fn, rs.Val)
 			o.Site(rs.Instr, "verdict "+e.X(fn, rs.Val))
-			o.Check(vl.Atom == "(len("+e.X(fn, active)+") == 0)" && !vl.Pos, "verdict-shape", "the verdict must be 'at least one active silence id', is "+e.X(fn, rs.Val), rs.Instr)
+			o.Check(vl.Atom == noActiveAtom && !vl.Pos && lenOfActive(rs.Val), "verdict-shape", "the verdict must be 'at least one active silence id', is "+e.X(fn, rs.Val), rs.Instr)
 		}
 		o.Require(active != nil, "verdict", "Mutes has no verdict derived from the active silence ids", nil)
 		isState := func(s string) LitM {
